@@ -16,6 +16,7 @@ Proof.
   - intros H. destruct (t_pc t) as [| | |rid|c| |w| |w|c|c|c|[c|e]]; cbn in H; try discriminate.
     + destruct (t_ctx t); discriminate.
     + exists w. destruct (mem w (closedw s)); [discriminate|]. destruct (t_ctx t); [discriminate|]. auto.
+    + destruct (t_dial t && t_onconn t); discriminate.
   - intros [w [-> [-> ->]]]. reflexivity.
 Qed.
 
